@@ -169,10 +169,10 @@ func zzC05Boot(t testing.TB, dir string) (sys *zzC05Sys) {
 		InterfaceName:   "lo",
 		LocalDomainName: "lan",
 		Conf4: dhcpd.V4ServerConf{
-			GatewayIP:     netip.MustParseAddr("192.168.10.1"),
+			GatewayIP:     netip.MustParseAddr("127.0.10.1"),
 			SubnetMask:    netip.MustParseAddr("255.255.255.0"),
-			RangeStart:    netip.MustParseAddr("192.168.10.100"),
-			RangeEnd:      netip.MustParseAddr("192.168.10.200"),
+			RangeStart:    netip.MustParseAddr("127.0.10.100"),
+			RangeEnd:      netip.MustParseAddr("127.0.10.200"),
 			LeaseDuration: 3600,
 		},
 	}
@@ -578,7 +578,7 @@ func zzC05Families(sys *zzC05Sys) (fams map[string]func(rng *rand.Rand, i int)) 
 			}
 		},
 		"DHCPLeases": func(rng *rand.Rand, i int) {
-			le := m{"mac": fmt.Sprintf("aa:bb:cc:dd:ee:%02x", i%3), "ip": fmt.Sprintf("192.168.10.%d", 150+i%3),
+			le := m{"mac": fmt.Sprintf("aa:bb:cc:dd:ee:%02x", i%3), "ip": fmt.Sprintf("127.0.10.%d", 150+i%3),
 				"hostname": fmt.Sprintf("dhcphost%d", i%3)}
 			if i%2 == 0 {
 				zzC05API(post, "/control/dhcp/add_static_lease", le)
@@ -709,7 +709,14 @@ func zzC05RunFamily(
 				netw = "tcp"
 			}
 
+			// 127.0.7.x are the persistent clients' addresses, 127.0.10.15x
+			// those of the DHCP leases that the DHCPLeases family adds and
+			// removes: requests from them are attributed to a runtime client.
 			src := fmt.Sprintf("127.0.7.%d", 1+g%4)
+			if g%7 >= 4 {
+				src = fmt.Sprintf("127.0.10.%d", 150+g%3)
+			}
+
 			c := &dns.Client{Net: netw, Timeout: 8 * time.Second}
 			var laddr net.Addr
 			if netw == "udp" {
